@@ -40,11 +40,15 @@ type SynCommit struct {
 	Subject string      `json:"subject"`
 	Type    string      `json:"type,omitempty"` // conventional-commit type of Subject, "" = none
 	Changes []SynChange `json:"changes"`
+	Shape   string      `json:"shape,omitempty"` // label of a subject drawn by genSubjectShape (evidence only)
 }
 
 // SynCase is a commit list given to the summary functions directly.
 type SynCase struct {
 	Commits []SynCommit `json:"commits"`
+	// Order: the summaries computed one after the other on ONE shared commit list (indices into
+	// summaryNames); empty = defaultOrder
+	Order []int `json:"order,omitempty"`
 }
 
 // ParsedCase is a ggen history whose emulated log text goes through the parser first.
@@ -73,6 +77,9 @@ func widened(o ggen.Options) ggen.Options {
 func synOptions() ggen.Options {
 	o := widened(withSwitches(ggen.Options{MaxCommits: 30, MaxPaths: 8, Empty: true, Binary: true, BracketHex: true, RepeatAuthor: true, RepeatDate: true, NumericSpacePaths: true}))
 	o.LeadingBlankPaths = true // the summaries never see the log text, only the commit list
+	// for the same reason: components that end with blanks or consist of blanks, runs of blanks, commits
+	// without a message, subjects written by git and the hosting services
+	o.TrailingBlankPaths, o.BlankRunPaths, o.EmptySubjects, o.ToolSubjects = true, true, true, true
 	return o
 }
 
@@ -138,28 +145,41 @@ func genSynWith(t *rapid.T, o ggen.Options, shape synShape) SynCase {
 		panic("c15: generated history does not simulate: " + err.Error())
 	}
 	log := sim.Log()
-	hashes := ggen.GenHashes(t, len(log))
+	hashes := genRevs(t, len(log))
 	byRev := map[string]ggen.Expected{}
 	for _, e := range ggen.Expect(sim, hashes) {
 		byRev[e.Rev] = e
 	}
 	var c SynCase
+	emptyKept := 0
 	freeNumbers := rapid.IntRange(0, 2).Draw(t, "freeNumbers") > 0
 	// a hot file: one file (followed through its renames; the next one when it is deleted) gets a further
 	// modification in most of the commits that do not touch it anyway
 	hot := rapid.IntRange(0, 3).Draw(t, "hotFile") == 3
 	hotPath := ""
 	live := map[string]bool{}
+	subjectShapes := rapid.IntRange(0, 2).Draw(t, "subjectShapes") == 2
+	withChanges := 0
+	for _, lc := range log {
+		if len(lc.Parents) <= 1 && len(lc.Entries) > 0 {
+			withChanges++
+		}
+	}
+	imp := drawImporter(t, withChanges)
 	for i, lc := range log {
 		e, ok := byRev[hashes[i]]
 		if !ok {
 			// a commit without file changes: the parser never lists one, a synthesised list may
 			if rapid.IntRange(0, 3).Draw(t, "keepEmptyCommit") == 3 {
+				emptyKept++
 				c.Commits = append(c.Commits, SynCommit{Rev: hashes[i], Author: lc.Commit.Author, Date: lc.Commit.Date, Subject: lc.Commit.Subject, Type: lc.Commit.Type})
 			}
 			continue
 		}
 		sc := SynCommit{Rev: e.Rev, Author: e.Author, Date: e.Date, Subject: e.Subject, Type: e.Type}
+		if subjectShapes && rapid.IntRange(0, 2).Draw(t, "otherSubject") > 0 {
+			sc.Subject, sc.Type, sc.Shape = genSubjectShape(t)
+		}
 		for _, d := range e.Entries {
 			ch := SynChange{Kind: string(d.Kind), Old: d.Old, New: d.New, Added: d.Added, Deleted: d.Deleted}
 			if freeNumbers {
@@ -172,6 +192,7 @@ func genSynWith(t *rapid.T, o ggen.Options, shape synShape) SynCase {
 			}
 			sc.Changes = append(sc.Changes, ch)
 		}
+		sc.Changes = append(sc.Changes, imp.changes(t, len(c.Commits)-emptyKept)...)
 		touched := map[string]bool{}
 		for _, ch := range sc.Changes {
 			touched[ch.Old], touched[ch.New] = true, true
@@ -204,6 +225,8 @@ func genSynWith(t *rapid.T, o ggen.Options, shape synShape) SynCase {
 		}
 		c.Commits = append(c.Commits, sc)
 	}
+	applyExoticNames(t, &c)
+	c.Order = genOrder(t)
 	return c
 }
 
@@ -213,7 +236,7 @@ func genParsed(t *rapid.T) ParsedCase {
 	if err != nil {
 		panic("c15: generated history does not simulate: " + err.Error())
 	}
-	return ParsedCase{History: h, Hashes: ggen.GenHashes(t, len(sim.Log()))}
+	return ParsedCase{History: h, Hashes: genRevs(t, len(sim.Log()))}
 }
 
 // ---- reference model -------------------------------------------------------------------
@@ -529,6 +552,18 @@ func judge(c SynCase, msgs []git.CommitMessage) pbt.Verdict {
 		}
 	}
 	v.Classes = append(v.Classes, teamClasses(c)...)
+	v.Classes = append(v.Classes, shapeClasses(c)...)
+	add(len(ref.live) > 32, "files_left>32")
+	add(len(ref.live) > 64, "files_left>64")
+	for _, files := range ref.change {
+		add(len(files) == 10, "changelog_type_with_files=10")
+	}
+	for _, rec := range ref.live {
+		revs := sortedKeys(rec.revs)
+		for i := 1; i < len(revs); i++ {
+			add(len(revs[i]) >= 7 && len(revs[i-1]) >= 7 && revs[i][:7] == revs[i-1][:7], "file_touched_by_commits_whose_hashes_share_7_digits")
+		}
+	}
 	for _, rec := range ref.live {
 		add(len(rec.revs) > 8, "file_with_revisions>8")
 		add(len(rec.revs) > 16, "file_with_revisions>16")
@@ -570,21 +605,12 @@ func judge(c SynCase, msgs []git.CommitMessage) pbt.Verdict {
 			}
 		}
 	}
-	// the CLI computes several summaries from one parsed list (`coca git -t -a -b`): a summary
-	// must not change what the next one sees. All of them again, on one shared list.
-	shared := copyMessages(msgs)
-	var team2, team3 []git.TeamSummary
-	var ages2 []git.ProjectInfo
-	var basic2 *git.GitSummary
-	if p := pbt.Call(func() {
-		team2 = git.GetTeamSummary(shared)
-		ages2 = git.CalculateCodeAge(shared)
-		_ = git.BuildChangeMap(shared)
-		_ = git.GetTopAuthors(shared)
-		team3 = git.GetTeamSummary(shared)
-		basic2 = git.BasicSummary(shared)
-	}); p != "" {
-		return fail("summaries on one shared commit list panicked: %s", p)
+	// the CLI computes several summaries from one parsed list (`coca git -m -b -t -a -o`): a summary
+	// must not change what the next one sees. All of them again, on one shared list, in the order
+	// of the case; every result must be the one computed on a list of its own.
+	order := c.Order
+	if len(order) == 0 {
+		order = defaultOrder
 	}
 	canonTeam := func(ts []git.TeamSummary) string {
 		var l []string
@@ -602,14 +628,57 @@ func judge(c SynCase, msgs []git.CommitMessage) pbt.Verdict {
 		sort.Strings(l)
 		return strings.Join(l, "\n")
 	}
-	if canonTeam(team2) != canonTeam(team) || canonTeam(team3) != canonTeam(team) {
-		return fail("team summary computed again on a commit list that other summaries have already read differs from the first one:\nfirst:\n%s\nafter code age / change map / top authors:\n%s", canonTeam(team), canonTeam(team3))
+	canonTops := func(ts []git.TopAuthor) string {
+		var l []string
+		for _, t := range ts {
+			l = append(l, fmt.Sprintf("%q commits=%d lines=%d", t.Name, t.CommitCount, t.LineCount))
+		}
+		sort.Strings(l)
+		return strings.Join(l, "\n")
 	}
-	if canonAges(ages2) != canonAges(ages) {
-		return fail("code age computed after the team summary on the same commit list differs:\nalone:\n%s\nafter team summary:\n%s", canonAges(ages), canonAges(ages2))
+	canonMap := func(m map[string]map[string]int) string {
+		l := flat(m)
+		sort.Strings(l)
+		return strings.Join(l, "\n")
 	}
-	if basic2 == nil || *basic2 != *basic {
-		return fail("basic summary computed last on a shared commit list is %+v, computed alone it is %+v", basic2, basic)
+	shared := copyMessages(msgs)
+	before := "nothing"
+	for _, k := range order {
+		if k < 0 || k >= len(summaryNames) {
+			ggen.HarnessFatal("order names summary %d", k)
+		}
+		alone, again := "", ""
+		if p := pbt.Call(func() {
+			switch k {
+			case 0:
+				alone, again = canonTeam(team), canonTeam(git.GetTeamSummary(shared))
+			case 1:
+				alone, again = canonAges(ages), canonAges(git.CalculateCodeAge(shared))
+			case 2:
+				alone, again = canonMap(cm), canonMap(git.BuildChangeMap(shared))
+			case 3:
+				alone, again = canonTops(tops), canonTops(git.GetTopAuthors(shared))
+			case 4:
+				if b := git.BasicSummary(shared); b != nil {
+					again = fmt.Sprintf("%+v", *b)
+				}
+				alone = fmt.Sprintf("%+v", *basic)
+			case 5:
+				var text bytes.Buffer
+				git.ShowChangeLogSummary(shared, &text)
+				again = checkChangeLogText(text.String(), ref.change)
+			}
+		}); p != "" {
+			return fail("%s on a commit list that other summaries have read before (%s) panicked: %s", summaryNames[k], before, p)
+		}
+		if again != alone {
+			return fail("%s computed on a commit list that other summaries have read before (%s) differs from the one computed on a list of its own:\nalone:\n%s\non the shared list:\n%s", summaryNames[k], before, alone, again)
+		}
+		if before == "nothing" {
+			before = summaryNames[k]
+		} else {
+			before += ", " + summaryNames[k]
+		}
 	}
 	add(multiRev, "file_with_revisions>=2")
 	add(multiAuthor, "file_with_authors>=2")
@@ -784,13 +853,15 @@ func sameAsExpected(msgs []git.CommitMessage, exp []ggen.Expected) bool {
 
 func init() {
 	pbt.SetProperty("C15")
-	pbt.Describe("operation lists drawn by the git-history generator of C14 (add / modify / delete / rename to another name, directory, the root, one directory up or down, replaced or prepended directory components; re-creation of deleted paths; conventional-commit subjects with and without scope; non-decreasing dates with ties; imports of 9-24 files in one commit, so that more than 20 files are left and a change-log type touches more than 10; mode-only changes = revisions without a line change; names that are a prefix or suffix of another name; author names with inner punctuation), linear histories. Scale, added on top of that generator in all four routes: one history in two is handed, commit by commit, to a team of 2-48 further authors (sizes straddle 8, 16 and 32; names `Dev n`, given + family name, one-word handles, names outside ASCII, near twins of another name: other case, first word alone, with a digit or ' Jr'; all names are ones git prints with %aN), so that there are more than 8 / 16 / 32 distinct authors, authors who commit again after many others have appeared, histories in which every commit has another author, files with more than 8 authors; with a team of more than 8 the history may have up to 40 ('syn'; 70 with a team of more than 32), 24 ('parsed'), 20 ('cli'), 16 ('seq') commits. 'syn' only: one list in eight has up to 70 commits; in one list in four a hot file (followed through its renames, replaced when deleted) is modified once more by three of four commits that do not touch it anyway, which gives files with more than 8 / 16 / 32 revisions. 'syn': 0-30 commits (see above: up to 70) by 1-8 authors (with a team: up to 48) over up to 8 live files (plus imports), turned directly into []CommitMessage with free added/deleted numbers, now and then a commit without any file change, path components that begin with a blank, the order of changes inside a commit shuffled, renames written in git's notation (dir/{a => b}/f, { => sub}/f, {sub => }/f, a => b) or forced to the full-path form; 'parsed': 1-12 commits, up to 5 files, printed in the exact git log layout by the format emulator (validated against real git at start-up) and parsed by BuildMessageByInput; 'seq': two short 'syn' lists (now and then with the same hashes) summarised one after the other in one process, both judged; 'cli': 1-8 commits (with a team of more than 8: up to 20) built with real git (validated like C14's cases), `coca git -b -t -a -o -m` (or, one time in three, a subset of the five flags) run inside the repository, the change-log sections and the rows of the last table read from stdout (4 statistics, files of the team summary, files of the code age, authors - in the order of the flags) and compared with the same reference; code age in the table is months before now, so only the order (oldest first) and the difference of every row to the first row (fixed by the two first-commit dates, +-0.02) are asserted; a case whose commits.json is not the history, or with a cell wider than 70 columns (the table writer folds at 80), is skipped and counted. Oracle: a reference fold over the operation list (old path / new path, not the notation): per live file the set of commits, the set of authors and the date of the first commit; a rename moves the record, a delete drops it. Compared: team summary as a set of (file, revisions, authors) and non-increasing in revisions; code age as a set of (file, first date) and non-decreasing; top authors as a set of (author, commits, added-deleted) with commit counts summing to the number of commits; basic summary commits / authors / distinct paths (with renames only: paths >= files existing at the end); changelog map = per conventional type and file name (the new name for a rename) the number of commits; printed change-log summary (ShowChangeLogSummary / -m) = one section per type with min(10, files) lines, each naming a file of that type with its count, none twice (which ten of more, and the order, are free); all summaries once more in CLI order on one shared commit list must equal the first results. Non-trivial = the history has a rename or a delete and at least 2 authors; distinct = hash of the commit list.",
+	pbt.Describe("operation lists drawn by the git-history generator of C14 (add / modify / delete / rename to another name, directory, the root, one directory up or down, replaced or prepended directory components; re-creation of deleted paths; conventional-commit subjects with and without scope; non-decreasing dates with ties; imports of 9-24 files in one commit, so that more than 20 files are left and a change-log type touches more than 10; mode-only changes = revisions without a line change; names that are a prefix or suffix of another name; author names with inner punctuation), linear histories. Scale, added on top of that generator in all four routes: one history in two is handed, commit by commit, to a team of 2-48 further authors (sizes straddle 8, 16 and 32; names `Dev n`, given + family name, one-word handles, names outside ASCII, near twins of another name: other case, first word alone, with a digit or ' Jr'; all names are ones git prints with %aN), so that there are more than 8 / 16 / 32 distinct authors, authors who commit again after many others have appeared, histories in which every commit has another author, files with more than 8 authors; with a team of more than 8 the history may have up to 40 ('syn'; 70 with a team of more than 32), 24 ('parsed'), 20 ('cli'), 16 ('seq') commits. 'syn' only: one list in eight has up to 70 commits; in one list in four a hot file (followed through its renames, replaced when deleted) is modified once more by three of four commits that do not touch it anyway, which gives files with more than 8 / 16 / 32 revisions. 'syn': 0-30 commits (see above: up to 70) by 1-8 authors (with a team: up to 48) over up to 8 live files (plus imports), turned directly into []CommitMessage with free added/deleted numbers, now and then a commit without any file change, path components that begin with a blank, the order of changes inside a commit shuffled, renames written in git's notation (dir/{a => b}/f, { => sub}/f, {sub => }/f, a => b) or forced to the full-path form; 'parsed': 1-12 commits, up to 5 files, printed in the exact git log layout by the format emulator (validated against real git at start-up) and parsed by BuildMessageByInput; 'seq': two short 'syn' lists (now and then with the same hashes) summarised one after the other in one process, both judged; 'cli': 1-8 commits (with a team of more than 8: up to 20) built with real git (validated like C14's cases), `coca git -b -t -a -o -m` (or, one time in three, a subset of the five flags) run inside the repository, the change-log sections and the rows of the last table read from stdout (4 statistics, files of the team summary, files of the code age, authors - in the order of the flags) and compared with the same reference; code age in the table is months before now, so only the order (oldest first) and the difference of every row to the first row (fixed by the two first-commit dates, +-0.02) are asserted; a case whose commits.json is not the history, or with a cell wider than 70 columns (the table writer folds at 80), is skipped and counted. Added by the checklist audit. 'syn' and 'seq' (laid over the generator's output, the operation list stays what it is): path components that end with blanks, consist of blanks or hold a run of blanks, commits without a message, subjects as git and the hosting services write them (Merge .., Revert \"..\", fixup! .., Merged PR n: ..; none of them conventional unless it cites a conventional subject at its front); in one list in three, two of three subjects are drawn at the border of the conventional form - of the form: unusual type words (feature, fixup, fi, f, v2, _, x1, FEAT, feat_, 9, a long word), scopes outside ASCII or with punctuation, two blanks after the colon, a description that begins with / contains another `word: ` or ends with a colon, the breaking-change mark `type!: ` and `type(scope)!: `; not of the form: `type:text`, `type:`, `type : text`, `type (scope): text`, `type(scope) : text`, `type(scope):text`, `type; text`, two words before the colon, and no word at all before the colon or the scope (`: text`, `(scope): text`); in one list in three, 1-6 path components (those of renamed paths first) are respelled everywhere they occur, distinct from all others: with braces (f{1}.txt, ${f.txt}, {{f.txt}}, f{.txt, f}.txt, {f.txt}), with $ _ or a digit at the edges, outside ASCII (é.., ..漢字, a no-break space inside, upper case), as a word of the log format or of the notation (delete, create, mode, rename, change, =>, ->, =), with 200 more bytes; in one list in twelve one commit imports 25-90 further files (commits with more than 32 / 64 changes, more than 64 files left) of which later commits modify, rename or delete one now and then; in one list in two the six summaries (the five and the printed change-log) are computed twice each on ONE shared commit list in a drawn order, every result compared with the one computed on a list of its own (without a drawn order: team, age, change map, top authors, team, basic). 'syn', 'seq' and 'parsed': in one list in four some hashes differ from an earlier hash of the list in the last digit only (same first seven digits), have 12 / 16 / 40 digits, or consist of digits only / letters only. 'cli': one time in two the flags are spelled otherwise: long names, one group (-btaom), `--name=true` with the flags left out as `--name=false`, reverse order. Oracle: a reference fold over the operation list (old path / new path, not the notation): per live file the set of commits, the set of authors and the date of the first commit; a rename moves the record, a delete drops it. Compared: team summary as a set of (file, revisions, authors) and non-increasing in revisions; code age as a set of (file, first date) and non-decreasing; top authors as a set of (author, commits, added-deleted) with commit counts summing to the number of commits; basic summary commits / authors / distinct paths (with renames only: paths >= files existing at the end); changelog map = per conventional type and file name (the new name for a rename) the number of commits; printed change-log summary (ShowChangeLogSummary / -m) = one section per type with min(10, files) lines, each naming a file of that type with its count, none twice (which ten of more, and the order, are free); all summaries once more in CLI order on one shared commit list must equal the first results. Non-trivial = the history has a rename or a delete and at least 2 authors; distinct = hash of the commit list.",
 		"a file re-created at a path that was deleted or renamed away earlier starts a new record",
 		"inside one commit every path is touched at most once (what a git tree diff can express), so the order of a commit's changes is immaterial",
 		"dates never decrease along the log, so 'first commit' and 'oldest commit' of a file coincide",
 		"an author is the exact name string (names that differ in case, or by a prefix, are different authors, as for git without a mailmap)",
 		"the order of the top-author list is not asserted (the statement promises none); 'Changes' of the basic summary is not asserted",
-		"conventional type = the word before ':' or '(scope):' at the very start of the subject, as written by the generator; subjects without a prefix start with a plain word followed by a blank",
+		"conventional type = the word before ': ', '(scope): ', '!: ' or '(scope)!: ' at the very start of the subject (the `!` is the breaking-change mark of Conventional Commits 1.0.0), compared as written (feat, FEAT and feature are three types); a subject without such a prefix is not conventional: it starts with a plain word followed by a blank, or it lacks the blank after the colon, has a blank in front of the colon or of the scope, or has no word in front of them",
+		"abbreviated hashes are distinct and none is a prefix of another one (as git prints them)",
+		"a path component may contain { and }, never ` => `. With such names git's rename notation can in general be read in more than one way; a rename that involves such a name is kept only when the printed text has exactly one pair of braces around the arrow that stands at component boundaries (`{` at the start or behind a slash, `}` at the end or before a slash) and that pair is the true one, or no such pair and the full-path form; otherwise the spelling with the brace is taken back",
 		"the 'parsed' route uses linear histories and leaves out the subject and path shapes on which the pinned parser is wrong (C14's findings); a case whose parser output differs from the history is skipped and counted, not judged")
 	pbt.Register("syn", 2000, 30000, genSyn, checkSyn)
 	pbt.Register("parsed", 1500, 10000, genParsed, checkParsed)
